@@ -166,6 +166,10 @@ where
             Some(entry) => {
                 let i = &self.inner;
                 let (ttl, tti, va) = (&i.time_to_live(), &i.time_to_idle(), &i.valid_after());
+                // A switch point while the map ref (a shard read lock) is held: writers of
+                // this shard are parked by their map probes until the ref is dropped.
+                #[cfg(mini_moka_verif)]
+                crate::verif::sp("get.holding_ref");
                 let arc_entry = &*entry;
 
                 if is_expired_entry_wo(ttl, va, arc_entry, now)
@@ -1222,6 +1226,8 @@ where
         deqs: &mut Deques<K>,
         counters: &mut EvictionCounters,
     ) {
+        #[cfg(mini_moka_verif)]
+        crate::verif::sp("sync.before_admit");
         let key = Arc::clone(&kh.key);
         counters.saturating_add(1, policy_weight);
         entry.entry_info().set_accounted_weight(policy_weight);
